@@ -65,9 +65,11 @@ def run_once(build, choices):
     return res, record
 
 
-def explore(build, on_result, bound=None, max_runs=None):
+def explore(build, on_result, bound=None, max_runs=None, max_seconds=None):
     """DFS over choice vectors. on_result(choices, results, record) is called for every execution.
     Returns dict(runs, points_max, capped)."""
+    import time as _time
+    t0 = _time.time()
     stack = [[]]
     runs = 0
     pmax = 0
@@ -79,7 +81,7 @@ def explore(build, on_result, bound=None, max_runs=None):
         pmax = max(pmax, len(record))
         choices = prefix + [0] * (len(record) - len(prefix))
         on_result(choices, res, record)
-        if max_runs and runs >= max_runs:
+        if (max_runs and runs >= max_runs) or (max_seconds and _time.time() - t0 > max_seconds):
             capped = bool(stack) or any(r[0] > 1 for r in record[len(prefix):])
             break
         dev = sum(1 for c in prefix if c != 0)
